@@ -92,6 +92,20 @@ def r1_flush_status_gates_publication(repo=None):
                             "a failed flush (ENOSPC/EIO) is not noticed and the truncated file is renamed to its final "
                             "name" % fld, line=c.line)
                 continue
+            if use == "tested" and cn.kind == "stmt":
+                # idiom: has_failure |= (close(...) < 0)  /  has_failure = has_failure || (close(...) < 0)
+                st = [(p, n, rhs, k) for p, n, rhs, k in clib.stores(cn.ast) if p == OBJ + "->has_failure"]
+                if st and st[0][3] == "|=":
+                    r.ok(site, "status folded into has_failure with |= (can only raise the flag)")
+                    continue
+                if st and st[0][3] == "=" and st[0][2] is not None and clib._reads(st[0][2], OBJ + "->has_failure"):
+                    r.ok(site, "status folded into has_failure (old value is part of the new one)")
+                    continue
+                if st:
+                    r.violation(LIB, fname, cons + " assigned to has_failure with `=`",
+                                "a successful close overwrites (clears) a failure recorded earlier, so a file whose earlier "
+                                "flush failed is still renamed to its final name", line=c.line)
+                    continue
             if use == "tested":
                 lab = _fail_label(cn.ast, c)
                 if lab is None:
@@ -246,6 +260,8 @@ def r2_sticky_failure(repo=None):
             r.ok("%s:%s %s has_failure = 0" % (LIB, node.line, fname), "initialisation in the constructor")
         elif v is not None and v != 0:
             r.ok("%s:%s %s has_failure = %d" % (LIB, node.line, fname, v), "failure flag only ever raised")
+        elif kind == "|=" or (kind == "=" and rhs is not None and clib._reads(rhs, OBJ + "->has_failure")):
+            r.ok("%s:%s %s %s" % (LIB, node.line, fname, node.nsrc[:50]), "failure flag folded with its old value (only raised)")
         else:
             r.violation(LIB, fname, node.nsrc, "the sticky failure flag is reset or assigned a non-constant", line=node.line)
     r.guard(8)
